@@ -1205,6 +1205,87 @@ def mut_unit():
                 externals=_time_externals())
 
 
+# ----------------------------------------------------------------------------------------------------------
+# geostructures/geohash.py :: the Niemeyer codec   (C11)
+#
+# a geohash is the list of its characters (`List Char`; a one-character string is a `Char`), `_NIEMEYER_CONFIG` is the
+# generated table `Gen/Geohash.lean` (a dict as its association list, a config as the record of its keys), ints that can
+# not be negative (literals, table entries, `len`, `ord`) are `Nat` — widened where they meet an `int` —, floats are exact
+# rationals.  The two-element interval lists are pairs; the `while` loop is fuelled with `length · len(bits)`.
+# `coordinate.to_float()` is a tuple that starts with `(longitude, latitude)` (then Z and M when present; pinned, not
+# translated), so `to_float()[:2]` is the stored pair for every coordinate, with or without Z and M; unpacking the whole
+# tuple into two names is *not* in the subset (it raises for a coordinate that carries Z or M).
+# `Coordinate(lon, lat)` is the model's normalising constructor (tied to the source by SrcCoord / C08Src); `GeoBox(nw, se)`
+# is the pair of its corners (`dt=` and `properties=` do not enter the geometry).
+
+PINS['coordinates.py::Coordinate.to_float'] = 'b613877e945e9836'     # SrcGeohash: a tuple that starts with `(longitude, latitude)`
+
+
+def geohash_unit():
+    src = py2lean.Source(_repo('geohash.py'))
+    for tag, lean in (('Nat', 'Nat'), ('Ch', 'Char'), ('NCfg', 'GV.Geohash.Gen.NiemeyerCfg'), ('GhBox', 'GV.Geohash.Box'),
+                      ('PtTuple', 'GV.Pt')):
+        py2lean.LEAN_TYPE.setdefault(tag, lean)
+    GH = 'List Ch'
+    insts = [
+        Inst('_decode_niemeyer', 'decodeNiemeyer', [('geohash', GH), ('base', 'Nat')], 'Except Tuple4 R'),
+        Inst('_coord_to_niemeyer', 'coordToNiemeyer', [('coordinate', 'Pt'), ('length', 'Int'), ('base', 'Nat')], 'Except ' + GH),
+        Inst('_get_niemeyer_subhashes', 'subhashes', [('geohash', GH), ('base', 'Nat')], 'Except Set ' + GH),
+        Inst('niemeyer_to_geobox', 'niemeyerToGeobox', [('geohash', GH), ('base', 'Nat')], 'Except GhBox',
+             doc='`dt`, `properties` left at their defaults'),
+        Inst('NiemeyerHasher._get_surrounding', 'getSurrounding', [('geohash', GH), ('base', 'Nat')], 'Except List ' + GH),
+    ]
+    items = {('NCfg', 'bits'): ('{}.bits', 'List Nat'), ('NCfg', 'charset'): ('{}.charset', GH),
+             ('NCfg', 'inverse'): ('{}.inverse', 'Dict Nat Nat'),
+             ('NCfg', 'min_x'): ('{}.minX', 'R'), ('NCfg', 'max_x'): ('{}.maxX', 'R'),
+             ('NCfg', 'min_y'): ('{}.minY', 'R'), ('NCfg', 'max_y'): ('{}.maxY', 'R')}
+
+    def fuel(qual, index):
+        # one iteration per bit: `length` characters of `len(bits)` bits each (proved sufficient in Props/C11Src)
+        if qual == '_coord_to_niemeyer' and index == 1:
+            return '((Int.toNat {length}) * (match GV.Geohash.cfgOf {base} with | some c => c.bits.length | none => 0))'
+        return None
+
+    def real(v):
+        return v.text if v.typ == 'R' else f'({v.text} : Rat)' if v.typ in ('Int', 'Nat') else None
+
+    def coordinate(tr, args):
+        xs = [real(a) for a in args]
+        if len(xs) != 2 or None in xs:
+            raise Unsupported('Coordinate(' + ', '.join(a.typ for a in args) + ')')
+        return Val(f'(GV.normalize true {xs[0]} {xs[1]})', 'Pt')
+
+    def geobox(tr, args):
+        if [a.typ for a in args] != ['Pt', 'Pt']:
+            raise Unsupported('GeoBox(' + ', '.join(a.typ for a in args) + ')')
+        return Val(f'(GV.Geohash.Box.mk {args[0].text} {args[1].text})', 'GhBox')
+
+    def subscript(tr, v, sl):
+        # `coordinate.to_float()[:2]`: the first two ordinates of the pinned tuple
+        if v.typ == 'PtTuple':
+            zero = sl.lower is None or (isinstance(sl.lower, py2lean.ast.Constant) and sl.lower.value == 0
+                                        and not isinstance(sl.lower.value, bool)) if isinstance(sl, py2lean.ast.Slice) else False
+            if isinstance(sl, py2lean.ast.Slice) and zero and sl.step is None \
+                    and isinstance(sl.upper, py2lean.ast.Constant) and sl.upper.value == 2 and not isinstance(sl.upper.value, bool):
+                return Val(v.text, 'Prod R R')
+            raise Unsupported(f'`{py2lean.ast.unparse(sl)}` of the tuple `to_float()` returns')
+        return None
+
+    def kw(tr, e):
+        f = e.func
+        return isinstance(f, py2lean.ast.Name) and f.id == 'GeoBox' and {k.arg for k in e.keywords} <= {'dt', 'properties'}
+
+    return Unit('SrcGeohash', src, 'GV.Src.Geohash', ['GeoVerif.Model.Geohash', 'GeoVerif.Model.PyPrelude'], insts,
+                {'NH': 'NiemeyerHasher'},
+                pins={k: PINS[k] for k in ('coordinates.py::Coordinate.to_float',)},
+                abstract={('Pt', 'to_float', ()): ('{}', 'PtTuple')},
+                intrinsics={'Coordinate': coordinate, 'GeoBox': geobox},
+                hooks={'isinstance': lambda typ: None, 'fuel': fuel, 'items': items, 'nat_literals': True, 'float_as_int': True,
+                       'str_as_chars': True, 'cells': True, 'body_locals': True, 'aug_assign': True, 'nested_fold': True,
+                       'subscript': subscript, 'set_of': 'GV.Geohash.toSet', 'keywords': kw,
+                       'constants': {'_NIEMEYER_CONFIG': ('GV.Geohash.Gen.niemeyerConfigs', 'Dict Nat NCfg')}})
+
+
 UNITS = {'SrcTime': time_unit, 'SrcBase': base_unit, 'SrcMulti': multi_unit, 'SrcColl': coll_unit, 'SrcPip': pip_unit,
          'SrcMember': member_unit, 'SrcTrack': track_unit, 'SrcRelate': relate_unit, 'SrcCoord': coord_unit,
          'SrcCurved': curved_unit, 'SrcCalc': calc_unit}
@@ -1214,6 +1295,7 @@ UNITS['SrcHullPoly'] = hullpoly_unit
 UNITS['SrcHullMulti'] = hullmulti_unit
 UNITS['SrcBounds'] = bounds_unit
 UNITS['SrcMut'] = mut_unit
+UNITS['SrcGeohash'] = geohash_unit
 
 
 def render(name):
